@@ -173,6 +173,32 @@ def r04c(ctx):
     if len(comps) != 5:
         raise AnalysisError(f"FunctionSignal.__init__: expected 5 component lists, found {comps}")
     ctx.analysed["component_lists"] = comps
+    # components whose *elements* are lists that the class updates in place (self._buffers[i][0] = ..., group.append(...) for group in
+    # self._filters): sharing the inner lists between two signals is then observable, whatever the rest of the function looks like
+    cls = repo.classes[FS].node
+    nested = set()
+    for n in ast.walk(cls):
+        if isinstance(n, ast.Subscript) and isinstance(n.ctx, ast.Store) and isinstance(n.value, ast.Subscript) and isinstance(n.value.value, ast.Attribute) \
+                and n.value.value.attr in comps:
+            nested.add(n.value.value.attr)
+        if isinstance(n, ast.For) and isinstance(n.iter, ast.Attribute) and n.iter.attr in comps and isinstance(n.target, ast.Name):
+            if any(isinstance(c, ast.Call) and isinstance(c.func, ast.Attribute) and c.func.attr in ("append", "extend", "insert") and isinstance(c.func.value, ast.Name)
+                   and c.func.value.id == n.target.id for c in ast.walk(n)):
+                nested.add(n.iter.attr)
+    ctx.analysed["components_with_inner_lists_updated_in_place"] = sorted(nested)
+
+    def shallow(v, owner, c_):
+        """v is `owner.c_` itself or a one-level copy of it"""
+        src = f"{owner}.{c_}"
+        if u(v) == src:
+            return True
+        if isinstance(v, ast.Call) and u(v.func) in ("list", "copy.copy") and len(v.args) == 1 and u(v.args[0]) == src:
+            return True
+        if isinstance(v, ast.Call) and isinstance(v.func, ast.Attribute) and v.func.attr == "copy" and u(v.func.value) == src and not v.args:
+            return True
+        if isinstance(v, ast.Subscript) and u(v.value) == src and isinstance(v.slice, ast.Slice) and v.slice.lower is None and v.slice.upper is None:
+            return True
+        return False
     cp = repo.member(FS, "copy")
     got = {}
     for s in ast.walk(cp):
@@ -182,7 +208,7 @@ def r04c(ctx):
         v = got.get(c_)
         ok = v is not None and ((is_call(v, func="copy.deepcopy") and u(v.args[0]) == f"self.{c_}") or isinstance(v, ast.ListComp))
         ctx.check(ok, "R04c", f"{FS}.copy", f"{c_} of the copy is a deep copy of self.{c_}", u(v) if v is not None else "not assigned", key_detail=f"{c_} in copy",
-                  loc=ctx.loc("pyrex.signals", cp))
+                  loc=ctx.loc("pyrex.signals", cp), pointed=bool(v is not None and c_ in nested and shallow(v, "self", c_)))
     ad = repo.member(FS, "__add__")
     got = {}
     for s in ast.walk(ad):
@@ -192,7 +218,7 @@ def r04c(ctx):
         v = got.get(c_)
         ok = v is not None and is_call(v, func="copy.deepcopy") and u(v.args[0]) == f"other.{c_}"
         ctx.check(ok, "R04c", f"{FS}.__add__", f"{c_} of the sum is extended by a deep copy of other.{c_}", u(v) if v is not None else "not extended",
-                  key_detail=f"{c_} in __add__", loc=ctx.loc("pyrex.signals", ad))
+                  key_detail=f"{c_} in __add__", loc=ctx.loc("pyrex.signals", ad), pointed=bool(v is not None and c_ in nested and shallow(v, "other", c_)))
 
 
 def guard_list(fn):
